@@ -467,6 +467,9 @@ type c13Start struct {
 	// hostC13 sets to the c13 scratch dir) and Cmd.Dir names another directory holding a different file of
 	// that name (os/exec resolves a relative Path against Dir).  Outside the model's "same file" assumption.
 	rel bool
+	// rel2: the same with Cmd.Dir a SYMLINK to a directory elsewhere and Cmd.Path = "../f-<bin>": the kernel resolves the
+	// `..` from the link's target, a lexical clean-up of Dir/Path from the link's own location
+	rel2 bool
 	sum              []byte
 	nilHash          bool
 	cls              string
@@ -506,6 +509,11 @@ func (c *c13Start) ext() (open string, fh []byte, runok bool) {
 		o, _ := c13Open("")
 		return o, c13Digest(c.hash), true
 	}
+	if c.rel2 {
+		// the file that runs is <target of Dir>/../f-<bin>, whose content is this binary's own
+		fi := c13Info(c.bin)
+		return fi.open, c13FH(c.hash, c.bin, false), c13ExecWorks(c.bin)
+	}
 	if c.rel {
 		// os/exec evaluates the relative Path relative to Cmd.Dir: the file that is checked and
 		// executed is <Dir>/f-<bin>, whose content is the OTHER binary's
@@ -521,6 +529,9 @@ func (c *c13Start) line() string {
 	open, fh, runok := c.ext()
 	l := fmt.Sprintf("C13.start cmd=%s rf=%s re=%s mux=%s secure=%s hash=%s bin=%s open=%s fh=%s sum=%s nilhash=%s runok=%s cls=%s",
 		b01(c.cmd), b01(c.rf), b01(c.re), b01(c.mux), b01(c.secure), c.hash, c.bin, open, hx(fh), hx(c.sum), b01(c.nilHash), b01(runok), c.cls)
+	if c.rel2 {
+		return l + " rel=2"
+	}
 	if c.rel {
 		return l + " rel=1"
 	}
@@ -529,7 +540,7 @@ func (c *c13Start) line() string {
 
 func c13StartFromLine(m map[string]string) *c13Start {
 	return &c13Start{cmd: m["cmd"] == "1", rf: m["rf"] == "1", re: m["re"] == "1", mux: m["mux"] == "1", secure: m["secure"] == "1",
-		hash: m["hash"], bin: m["bin"], sum: unhx(m["sum"]), nilHash: m["nilhash"] == "1", cls: m["cls"], rel: m["rel"] == "1"}
+		hash: m["hash"], bin: m["bin"], sum: unhx(m["sum"]), nilHash: m["nilhash"] == "1", cls: m["cls"], rel: m["rel"] == "1", rel2: m["rel"] == "2"}
 }
 
 var c13MarkerSeq int64
@@ -567,6 +578,10 @@ func runC13Start(c *c13Start) c13StartRes {
 		if c.rel {
 			cmd.Path = "./" + filepath.Base(cmd.Path)
 			cmd.Dir = c13AltDir(c.bin)
+		}
+		if c.rel2 {
+			cmd.Path = "../" + filepath.Base(cmd.Path)
+			cmd.Dir = c13LinkDir(c.bin)
 		}
 		cmd.Args = []string{cmd.Path, "plugin", "c13"}
 		if c.cls == "otherfile" && (c.bin == "binA" || c.bin == "binB") {
@@ -753,6 +768,10 @@ func c13GenStarts(r *rng) []*c13Start {
 	c13AltDir("binA")
 	add(&c13Start{cmd: true, secure: true, hash: "sha256", bin: "binA", sum: c13FH("sha256", "binA", false), cls: "relpath-dir", rel: true})
 	add(&c13Start{cmd: true, secure: true, hash: "sha256", bin: "binA", sum: c13FH("sha256", "binB", false), cls: "relpath-dir-match", rel: true})
+	// … with Dir a symlink and a `..` in Path: what is verified must be what the kernel will run
+	c13LinkDir("binA")
+	add(&c13Start{cmd: true, secure: true, hash: "sha256", bin: "binA", sum: c13FH("sha256", "binA", false), cls: "linkdir-match", rel2: true})
+	add(&c13Start{cmd: true, secure: true, hash: "sha256", bin: "binA", sum: c13FH("sha256", "binB", false), cls: "linkdir-lexical-file", rel2: true})
 	return cs
 }
 
@@ -778,6 +797,32 @@ func c13AltDir(bin string) string {
 		c13Made["alt:"+bin] = dst
 	}
 	return filepath.Dir(dst)
+}
+
+// c13LinkDir: <alt>/lnk, a symlink to <c13>/deep/sub; <c13>/deep/f-<bin> is a copy of the binary itself, while
+// <alt>/f-<bin> (what "<alt>/lnk/../f-<bin>" names after a lexical clean-up) holds the OTHER binary.
+func c13LinkDir(bin string) string {
+	alt := c13AltDir(bin)
+	c13Mu.Lock()
+	defer c13Mu.Unlock()
+	lnk := filepath.Join(alt, "lnk")
+	if _, ok := c13Made["lnk:"+bin]; !ok {
+		deep := filepath.Join(c13Dir(), "deep")
+		os.MkdirAll(filepath.Join(deep, "sub"), 0o755)
+		b, err := os.ReadFile(c13Made[bin])
+		if err != nil {
+			panic(err)
+		}
+		if err := os.WriteFile(filepath.Join(deep, filepath.Base(c13Made[bin])), b, 0o755); err != nil {
+			panic(err)
+		}
+		os.Remove(lnk)
+		if err := os.Symlink(filepath.Join(deep, "sub"), lnk); err != nil {
+			panic(err)
+		}
+		c13Made["lnk:"+bin] = lnk
+	}
+	return lnk
 }
 
 // ---------------------------------------------------------------- scenario
